@@ -413,6 +413,12 @@ class C13(Check):
             p = os.path.join(vlib.REPO, "examples", "networks", nm)
             if os.path.exists(p):
                 yield ("inp:" + nm, None, p)
+        # a model that has been SIMULATED (and not reset) is still a model "readable from an INP file": its run-time state
+        # (heads, demands, leak demand, statuses) must not leak into the dictionary
+        for nm in ["Net1.inp"] + ([] if ctx.quick else ["Net3.inp"]):
+            p = os.path.join(vlib.REPO, "examples", "networks", nm)
+            if os.path.exists(p):
+                yield ("inp+sim:" + nm, None, p)
 
     def _roundtrips(self, wntr, wn, d0, tmpdir):
         """the four paths of the statement; each returns the dictionary of the re-created model or raises"""
@@ -455,6 +461,12 @@ class C13(Check):
             for label, sp, path in self._cases(ctx, wntr):
                 try:
                     wn = G.realise(wntr, sp) if sp is not None else wntr.network.read_inpfile(path)
+                    if label.startswith("inp+sim:"):
+                        wn.options.time.duration = 2 * wn.options.time.hydraulic_timestep
+                        node0 = wn.junction_name_list[0]
+                        wn.get_node(node0).add_leak(wn, 0.0005, 0.75, 0, None)  # an active leak at the end of the run
+                        wntr.sim.WNTRSimulator(wn).run_sim()
+                        ctx.count("case:simulated-before-to_dict")
                 except Exception as e:
                     raise vlib.Infra("generator produced a model the API refuses (%s): %s: %s" % (label, type(e).__name__, e))
                 if sp is not None:
